@@ -19,6 +19,7 @@ func init() {
 	gens["Src_echo.v"] = genGoLiteEcho
 	gens["Src_mw_handlers.v"] = genGoLiteMiddleware
 	gens["Src_gzip.v"] = genGoLiteGzip
+	gens["Src_errorhandler.v"] = genGoLiteErrorHandler
 }
 
 // innerHandler finds the innermost function literal of shape func(c echo.Context) error inside fd.
@@ -89,6 +90,8 @@ type goliteCfg struct {
 	recv   string
 	locals map[string]bool
 	tail   map[string]bool      // return f(...): f is called (an event) and its result returned
+	strfn  map[string]bool      // functions known to return a string (for the type-test cells of a field set from their result)
+	objs   map[string][]string  // local variables holding a pointer to a struct, with the fields that are read: scalar-replaced into cells "v.f"
 	grow   map[string][2]string // external call -> (cell, amount cell): the call makes the cell grow (bytes.Buffer.Write: Len() grows by len(b))
 	pre    []string             // external calls met inside an expression: hoisted in front of the statement
 	ntmp   int
@@ -122,10 +125,15 @@ func (g *goliteCfg) expr(e ast.Expr) (string, error) {
 		return "ESym " + g.str(v.Name), nil
 	case *ast.SelectorExpr:
 		n := lit(v)
-		if strings.HasPrefix(n, g.recv+".") {
+		if strings.HasPrefix(n, g.recv+".") || g.cells[n] {
+			return "EField " + g.str(n), nil
+		}
+		if id, ok := v.X.(*ast.Ident); ok && g.objs[id.Name] != nil {
 			return "EField " + g.str(n), nil
 		}
 		return "ESym " + g.str(n), nil
+	case *ast.CompositeLit:
+		return "ESym " + g.str(lit(v)), nil // a constructed value (a map literal handed on): named by its Go spelling
 	case *ast.TypeAssertExpr:
 		return g.expr(v.X)
 	case *ast.StarExpr:
@@ -294,6 +302,9 @@ func (g *goliteCfg) stmt(s ast.Stmt) ([]string, error) {
 		a, err := g.assignTo(v.X, fmt.Sprintf("%s (%s) (EZ 1)", op, x))
 		return []string{a}, err
 	case *ast.AssignStmt:
+		if out, ok, err := g.objAssign(v); ok {
+			return out, err
+		}
 		if len(v.Rhs) == 1 {
 			if ce, ok := v.Rhs[0].(*ast.CallExpr); ok && g.extern[lit(ce.Fun)] {
 				var xs []string
@@ -390,6 +401,44 @@ func (g *goliteCfg) stmt(s ast.Stmt) ([]string, error) {
 			es = append(es, x)
 		}
 		return []string{"SRet [" + strings.Join(es, "; ") + "]"}, nil
+	case *ast.TypeSwitchStmt:
+		// switch m := X.(type) { case T1: ...; case T2: ... }: the cases are tried in order; "X is a T" is a cell "X.(T)"
+		as, ok := v.Assign.(*ast.AssignStmt)
+		if !ok || len(as.Lhs) != 1 || len(as.Rhs) != 1 {
+			return nil, fmt.Errorf("type switch without binding is not understood")
+		}
+		ta, ok := as.Rhs[0].(*ast.TypeAssertExpr)
+		if !ok {
+			return nil, fmt.Errorf("type switch is not understood")
+		}
+		x, err := g.expr(ta.X)
+		if err != nil {
+			return nil, err
+		}
+		bind, err := g.assignTo(as.Lhs[0], x)
+		if err != nil {
+			return nil, err
+		}
+		chain := "[]"
+		for i := len(v.Body.List) - 1; i >= 0; i-- {
+			cc := v.Body.List[i].(*ast.CaseClause)
+			body, err := g.block(cc.Body)
+			if err != nil {
+				return nil, err
+			}
+			if cc.List == nil {
+				if i != len(v.Body.List)-1 {
+					return nil, fmt.Errorf("default case must come last")
+				}
+				chain = body
+				continue
+			}
+			if len(cc.List) != 1 {
+				return nil, fmt.Errorf("type switch case with several types is not understood")
+			}
+			chain = fmt.Sprintf("[SIf (EField %s)\n    %s\n    %s]", g.str(lit(ta.X)+".("+lit(cc.List[0])+")"), body, chain)
+		}
+		return []string{bind, "SIf (EZ 1)\n    " + chain + "\n    []"}, nil
 	case *ast.IfStmt:
 		var pre []string
 		if v.Init != nil {
@@ -612,4 +661,104 @@ func genGoLiteGzip(repo string) (string, error) {
 		return "", err
 	}
 	return out + s, nil
+}
+
+// objAssign: assignments whose target is a scalar-replaced object variable (cfg.objs).
+//
+//	v = w                  (w another object variable): every field cell is copied
+//	v = &T{f: e, ...}      the listed fields are set, the others zeroed
+//	v, ok := X.(*T)        ok comes from outside (a type test); the field cells are copied from the object "X.(*T)"
+func (g *goliteCfg) objAssign(v *ast.AssignStmt) ([]string, bool, error) {
+	id, isID := v.Lhs[0].(*ast.Ident)
+	if !isID || g.objs[id.Name] == nil {
+		return nil, false, nil
+	}
+	fields := g.objs[id.Name]
+	var out []string
+	switch {
+	case len(v.Lhs) == 1 && len(v.Rhs) == 1:
+		switch r := v.Rhs[0].(type) {
+		case *ast.Ident:
+			if g.objs[r.Name] == nil {
+				return nil, true, fmt.Errorf("%s = %s: the source is not an object variable", id.Name, r.Name)
+			}
+			for _, f := range fields {
+				out = append(out, fmt.Sprintf("SFSet %s (EField %s)", g.str(id.Name+"."+f), g.str(r.Name+"."+f)))
+			}
+			return out, true, nil
+		case *ast.UnaryExpr:
+			cl, ok := r.X.(*ast.CompositeLit)
+			if r.Op != token.AND || !ok {
+				break
+			}
+			set := map[string]string{}
+			for _, el := range cl.Elts {
+				kv, ok := el.(*ast.KeyValueExpr)
+				if !ok {
+					return nil, true, fmt.Errorf("%s: positional struct literal is not understood", id.Name)
+				}
+				x, err := g.expr(kv.Value)
+				if err != nil {
+					x = "ESym " + g.str(lit(kv.Value))
+				}
+				set[lit(kv.Key)] = x
+			}
+			// type-test cells "F.(string)" of a field set from a string literal or a function known to return a string
+			for _, el := range cl.Elts {
+				kv := el.(*ast.KeyValueExpr)
+				isStr := false
+				if bl, ok := kv.Value.(*ast.BasicLit); ok && bl.Kind == token.STRING {
+					isStr = true
+				}
+				if ce, ok := kv.Value.(*ast.CallExpr); ok && g.strfn[lit(ce.Fun)] {
+					isStr = true
+				}
+				if isStr {
+					set[lit(kv.Key)+".(string)"] = "EZ 1"
+				}
+			}
+			for _, f := range fields {
+				x, ok := set[f]
+				if !ok {
+					x = "EZ 0"
+				}
+				out = append(out, fmt.Sprintf("SFSet %s (%s)", g.str(id.Name+"."+f), x))
+			}
+			return out, true, nil
+		}
+	case len(v.Lhs) == 2 && len(v.Rhs) == 1:
+		ta, isTA := v.Rhs[0].(*ast.TypeAssertExpr)
+		okID, isOK := v.Lhs[1].(*ast.Ident)
+		if !isTA || !isOK {
+			break
+		}
+		src := lit(ta)
+		g.locals[okID.Name] = true
+		out = append(out, fmt.Sprintf("SCall [%s] %s []", g.str(okID.Name), g.str(src)))
+		for _, f := range fields {
+			out = append(out, fmt.Sprintf("SFSet %s (EField %s)", g.str(id.Name+"."+f), g.str(src+"."+f)))
+		}
+		return out, true, nil
+	}
+	return nil, true, fmt.Errorf("assignment to the object variable %s is not understood", id.Name)
+}
+
+func genGoLiteErrorHandler(repo string) (string, error) {
+	f, err := parseFile(repo, "echo.go")
+	if err != nil {
+		return "", err
+	}
+	fd := findFunc(f, "*Echo", "DefaultHTTPErrorHandler")
+	if fd == nil {
+		return "", fmt.Errorf("Echo.DefaultHTTPErrorHandler not found")
+	}
+	flds := []string{"Code", "Message", "Internal", "Message.(string)", "Message.(json.Marshaler)", "Message.(error)"}
+	s, err := goliteFunc(fd, "default_error_handler", goliteCfg{ignore: map[string]bool{},
+		cells: map[string]bool{"c.Response().Committed": true, "c.Request().Method": true},
+		objs:  map[string][]string{"he": flds, "herr": flds}, strfn: map[string]bool{"http.StatusText": true},
+		extern: map[string]bool{"c.NoContent": true, "c.JSON": true}})
+	if err != nil {
+		return "", err
+	}
+	return goliteHeader + "(* echo.go: Echo.DefaultHTTPErrorHandler.  The error values are scalar-replaced: the cells \"he.Code\", \"he.Message\",\n   \"he.Internal\" and the type tests \"he.Message.(string)\" ... of the HTTPError the variable points to; a type assertion\n   of X to a pointer to HTTPError answers ok from the input stream and its fields are the cells named after the assertion.\n   c.NoContent and c.JSON are external calls (events; their error result comes from the input stream). *)\n" + s, nil
 }
